@@ -147,4 +147,36 @@ PROPS = {
         "trusted_base": S_TRUSTED,
         "assumptions": S_ASSUME,
     },
+    "C03": {
+        "level": "other",
+        "level_text": "bounded symbolic execution of the real sub-message/reply machinery over every tree shape, reply_on assignment and failing subset inside the bound; the sequence of entry-point invocations and the content of every Reply (id, payload, Ok with exactly the sub-message's events and data / Err, msg_responses) are compared with a reference interpreter on every feasible path. Largely control: the solver chooses which bank leaves fail (zero / overdrawing symbolic amounts); this is the weakest level claimed.",
+        "level_note": "trusts the reference interpreter (symx/harness/src/tree.rs), the symbolic Uint128 semantics, z3; event comparison uses types, emitting contract and concrete attributes (amount texts inside transfer events are not compared)",
+        "technique": "symbolic execution + SMT (z3) over the real code, differential against a specification interpreter; counterexample replay on the unpatched build",
+        "explanation": S_EXPL,
+        "engines": [{"kind": "S"}],
+        "functions": ["WasmKeeper::{execute_submsg,reply,call_reply,process_response,build_app_response,response_type_url,encode_response_data} (src/wasm.rs)", "ContractWrapper::reply (src/contracts.rs)"],
+        "bounds": {
+            "quick": "trees of depth <=2 / <=3 nodes / <=2 children; every reply_on mode and reply-handler outcome; ids from {0,1,u64::MAX} rotating per node or all equal; payload = the JSON reply script (unique per node); data/attributes/events of nodes varied by a 4-profile table",
+            "thorough": "chains of 4 nodes (depth 2 and 3)",
+        },
+        "outside": "more than 4 nodes; payloads other than the reply scripts; gas_used",
+        "trusted_base": S_TRUSTED,
+        "assumptions": S_ASSUME,
+    },
+    "C04": {
+        "level": "other",
+        "level_text": "bounded symbolic execution of the real response-composition code over every tree shape / reply_on assignment / failing subset inside the bound with data, attributes and custom events varied per node; the event list (types, order, emitting contract, _contract_address first) and the returned data (last reply that set data else own; execute/migrate wrapping only when present; instantiate always wraps address+data) are compared with a reference composition and an independent hand-written protobuf encoder. Largely control; weakest level claimed.",
+        "level_note": "trusts the reference composition in symx/harness/src/tree.rs and the 10-line protobuf field encoder; the solver only chooses failing bank leaves",
+        "technique": "symbolic execution + SMT (z3) over the real code, differential against a specification interpreter; counterexample replay on the unpatched build",
+        "explanation": S_EXPL,
+        "engines": [{"kind": "S"}],
+        "functions": ["WasmKeeper::{build_app_response,process_response,execute_submsg,reply,execute_wasm,process_wasm_msg_instantiate,sudo,encode_response_data,instantiate_response} (src/wasm.rs)", "BankKeeper::execute events (src/bank.rs)"],
+        "bounds": {
+            "quick": "trees of depth <=2 / <=3 nodes / <=2 children with node outputs from the table {(no data,0 attrs,0 events),([1,2],1,0),(empty data,0,1),(none,1,1)} rotated by a profile selector, reply data from {none, empty, [1,2]}; instantiate, sudo and migrate entry points with the 4 output profiles",
+            "thorough": "chains of 4 nodes (depth 2 and 3)",
+        },
+        "outside": "textual form of amounts in attributes; data longer than 127 bytes; the reply entry-point event is checked for type/mode/address only",
+        "trusted_base": S_TRUSTED,
+        "assumptions": S_ASSUME,
+    },
 }
